@@ -177,6 +177,25 @@ def plan(tier, seed):
     return [{'shard': i, 'n': per_mut, 'nshards': n} for i in range(n)]
 
 
+def holds_sentinel(obj, depth=0):
+    """Is the end-of-octets marker object (an internal sentinel, not a value of any type) the result or a member of it?"""
+    from pyasn1.codec.ber import eoo
+    if obj is eoo.endOfOctets or isinstance(obj, eoo.EndOfOctets):
+        return True
+    if depth > 6 or not isinstance(obj, asn1base.ConstructedAsn1Type):
+        return False
+    try:
+        if isinstance(obj, univ.Choice):
+            return holds_sentinel(obj.getComponent(), depth + 1)
+        n = len(obj) if not (isinstance(obj, univ.SequenceAndSetBase) and len(obj.componentType)) else len(obj.componentType)
+        for i in range(min(n, 50)):
+            if holds_sentinel(obj.getComponentByPosition(i, default=None, instantiate=False), depth + 1):
+                return True
+    except Exception:
+        return False
+    return False
+
+
 def shape_problem(obj):
     if obj is None:
         return 'returned-None'
@@ -187,6 +206,8 @@ def shape_problem(obj):
             return 'returned-placeholder'
     except Exception as e:
         return 'isValue-raised:' + type(e).__name__
+    if holds_sentinel(obj):
+        return 'returned-the-end-of-octets-sentinel'
     return None
 
 
@@ -288,6 +309,78 @@ def run_input(res, sc, data, T, schema, origin, strlimit=False):
             if stream.reads > READ_A + READ_B * n:
                 res.witness('read-budget-exceeded', feats, case, '%d reads for %d octets' % (stream.reads, n))
             res.maximum('max-reads-per-octet', round(stream.reads / float(max(1, n)), 1))
+
+
+def _tlv(tag, content):
+    n = len(content)
+    if n < 128:
+        return tag + bytes([n]) + content
+    k = (n.bit_length() + 7) // 8
+    return tag + bytes([0x80 | k]) + n.to_bytes(k, 'big') + content
+
+
+# name -> (function N -> bytes, guiding type token or None)
+SCALING = [
+    ('sequence-of-n-integers-schemaless', lambda n: _tlv(b'\x30', b'\x02\x01\x05' * n), None),
+    ('sequence-one-boolean-then-n-integers-schemaless', lambda n: _tlv(b'\x30', b'\x01\x01\xff' + b'\x02\x01\x05' * n), None),
+    ('set-of-n-integers-schemaless', lambda n: _tlv(b'\x31', b'\x02\x01\x05' * n), None),
+    ('indefinite-sequence-of-n-integers-schemaless', lambda n: b'\x30\x80' + b'\x02\x01\x05' * n + b'\x00\x00', None),
+    ('sequence-of-n-integers-guided', lambda n: _tlv(b'\x30', b'\x02\x01\x05' * n), ('seqof', ('int',))),
+    ('set-of-n-integers-guided', lambda n: _tlv(b'\x31', b'\x02\x01\x05' * n), ('setof', ('int',))),
+    ('octet-string-of-n-fragments', lambda n: _tlv(b'\x24', b'\x04\x01\x61' * n), ('octs',)),
+    ('indefinite-octet-string-of-n-fragments', lambda n: b'\x24\x80' + b'\x04\x01\x61' * n + b'\x00\x00', None),
+    ('bit-string-of-n-fragments', lambda n: _tlv(b'\x23', b'\x03\x02\x00\x61' * n), ('bits',)),
+    ('utf8-string-of-n-fragments', lambda n: _tlv(b'\x2c', b'\x04\x01\x61' * n), ('char', 'UTF8String')),
+    ('n-alternating-types-schemaless', lambda n: _tlv(b'\x30', (b'\x02\x01\x05\x04\x01\x61') * (n // 2)), None),
+    ('sequence-of-n-empty-sequences', lambda n: _tlv(b'\x30', b'\x30\x00' * n), None),
+    ('n-top-level-items-in-a-stream', lambda n: b'\x02\x01\x05' * n, None),
+    ('sequence-of-n-nulls-guided', lambda n: _tlv(b'\x30', b'\x05\x00' * n), ('seqof', ('null',))),
+    ('oid-of-n-arcs', lambda n: _tlv(b'\x06', b'\x2b' + b'\x81\x01' * n), ('oid',)),
+    ('sequence-of-n-explicitly-tagged-integers', lambda n: _tlv(b'\x30', b'\xa0\x03\x02\x01\x05' * n), None),
+]
+SCALING_N = 300
+
+
+def check_scaling(res, sc, family):
+    name, make, T = family
+    schema = B.schema(T) if T is not None else None
+    feats = {'origin:scaling', 'family:' + name, 'spec:' + ('none' if T is None else 'given')}
+    for dname, dec in DEC:
+        for mode in ('oneshot', 'stream'):
+            steps = []
+            for n in (SCALING_N, 2 * SCALING_N):
+                data = make(n)
+                sc.reset(40 * (STEP_A + STEP_B * len(data)))
+                try:
+                    if mode == 'oneshot':
+                        dec.decode(io.BytesIO(data), asn1Spec=schema) if schema is not None else dec.decode(io.BytesIO(data))
+                    else:
+                        sd = dec.StreamingDecoder(io.BytesIO(data), asn1Spec=schema) if schema is not None else \
+                            dec.StreamingDecoder(io.BytesIO(data))
+                        for x in sd:
+                            if isinstance(x, error.SubstrateUnderrunError):
+                                break
+                except error.PyAsn1Error:
+                    pass
+                except M.StepCounter.StepBudgetExceeded:
+                    pass
+                except Exception as ex:
+                    c = H.classify_exception(ex)
+                    if isinstance(c, tuple):
+                        res.witness('%s:leak:%s' % (mode, c[1]), feats | {'decoder:' + dname, 'mode:' + mode},
+                                    ('c08-scaling', name, dname, mode), ex)
+                finally:
+                    steps.append(sc.count)
+                    sc.budget = None
+            res.see('scaling-measurements')
+            res.case(U.case_hash('scaling', name, dname, mode), True)
+            ratio = steps[1] / float(max(1, steps[0]))
+            res.maximum('max-step-growth-for-doubled-input', round(ratio, 2))
+            # doubling the number of members doubles the input (plus two length octets): allow 2.6
+            if steps[0] > 200 and ratio > 2.6:
+                res.witness('step-count-grows-faster-than-the-input', feats | {'decoder:' + dname, 'mode:' + mode},
+                            ('c08-scaling', name, dname, mode),
+                            '%s: %d steps for N=%d, %d steps for N=%d (x%.2f)' % (name, steps[0], SCALING_N, steps[1], 2 * SCALING_N, ratio))
 
 
 def grammar_tree(rng, depth, maxdepth):
@@ -423,6 +516,28 @@ def run_shard(shard, tier, seed):
             T_, sch_ = specs[j % len(specs)]
             run_input(res, sc, data, T_, sch_, 'flat-header-run')
             res.see('flat-header-runs')
+        # (ix) an end-of-octets marker where a definite-length element expects its contents
+        eoo_in = [b'\xa0\x02\x00\x00', b'\x30\x04\xa0\x02\x00\x00', b'\xa0\x04\xa1\x02\x00\x00', b'\x30\x80\xa0\x02\x00\x00\x00\x00',
+                  b'\x24\x02\x00\x00', b'\x30\x02\x00\x00', b'\x31\x02\x00\x00', b'\x23\x02\x00\x00', b'\xbf\x1f\x02\x00\x00',
+                  b'\x30\x06\x02\x01\x01\xa0\x02\x00\x00', b'\x31\x80\xa0\x02\x00\x00\x00\x00', b'\xa0\x03\x00\x00\x00', b'\x60\x02\x00\x00']
+        from pyasn1.type import namedtype as _nt, tag as _tag
+        exp_int = univ.Integer().subtype(explicitTag=_tag.Tag(_tag.tagClassContext, _tag.tagFormatConstructed, 0))
+        CUSTOM_SPECS.setdefault('[0] EXPLICIT INTEGER', lambda: univ.Integer().subtype(
+            explicitTag=_tag.Tag(_tag.tagClassContext, _tag.tagFormatConstructed, 0)))
+        CUSTOM_SPECS.setdefault('SEQUENCE { a [0] EXPLICIT INTEGER }', lambda: univ.Sequence(componentType=_nt.NamedTypes(
+            _nt.NamedType('a', univ.Integer().subtype(explicitTag=_tag.Tag(_tag.tagClassContext, _tag.tagFormatConstructed, 0))))))
+        for j, data in enumerate(eoo_in):
+            if j % shard['nshards'] != shard['shard']:
+                continue
+            run_input(res, sc, data, None, None, 'eoo-inside-definite')
+            for name in ('[0] EXPLICIT INTEGER', 'SEQUENCE { a [0] EXPLICIT INTEGER }'):
+                run_input(res, sc, data, name, CUSTOM_SPECS[name](), 'eoo-inside-definite')
+            res.see('eoo-inside-definite-inputs')
+        # (x) growth of the step count: the same shape of input at N and 2N members must not cost much more than
+        # twice the steps (a bound "proportional to the input size" is a statement about growth; the fixed budget
+        # A + B*|input| has a generous B and would let quadratic work through at these sizes)
+        if shard['shard'] < len(SCALING):
+            check_scaling(res, sc, SCALING[shard['shard']])
         budget = C.Budget(tier, quick=40.0)
         # (ii) mutated encodings and (iii) grammar trees
         for i in range(shard['n']):
@@ -538,6 +653,14 @@ def run_shard(shard, tier, seed):
 
 def replay(case):
     res = H.Result(ID)
+    if case[0] == 'c08-scaling':
+        sc = M.StepCounter()
+        sc.start()
+        try:
+            check_scaling(res, sc, [f for f in SCALING if f[0] == case[1]][0])
+        finally:
+            sc.stop()
+        return res
     _, hexdata, dname, mode, T = case
     sc = M.StepCounter()
     sc.start()
